@@ -269,3 +269,6 @@ def run(ctx):
 
     _gf.evaluate_rules(ctx)  # 'observe at GridFunction.evaluate': the function of a coefficient vector is read through the space's own dof map
     _gf.representations(ctx)
+    from .. import spaces as _spc
+
+    _spc.paired_defaults(ctx)  # RWG / SNC and BC / RBC are built from the same options under the same keywords
